@@ -1,6 +1,1486 @@
-//! C13 — not built yet.
+//! C13 — updates and signed-only transfers require a valid, timely TSIG.
+//!
+//! Real code driven here: `Message::finalize` / `TSigner::sign_message` (client signer),
+//! `signed_bitmessage_to_buf`, `TSigner::{verify_message_byte, encode_response_tbs}`,
+//! `TSigVerifier::verify`, and the server path `Request::from_bytes` → `Catalog::handle_request`
+//! (with a settable `Time`) → `SqliteZoneHandler::{update, zone_transfer}` → reply bytes through
+//! `ResponseHandle` / `BufDnsStreamHandle`.
+//!
+//! The oracle is independent of the Lean model *and* of hickory's TSIG code: `RefTsig` below is a
+//! small RFC 8945 reference over raw bytes (header verbatim with id := original id and ARCOUNT-1,
+//! the octets up to the TSIG RR verbatim, TSIG variables with the RR's own CLASS and TTL), keyed
+//! with the HMAC primitive only (`TsigAlgorithm::mac_data`).
+use std::future::Future;
+use std::io;
+use std::net::SocketAddr;
+use std::sync::atomic::{AtomicU64, Ordering};
+use std::sync::Arc;
+use std::time::Duration;
+
+use futures_util::{FutureExt, StreamExt};
+use hickory_net::runtime::{Time, TokioRuntimeProvider};
+use hickory_net::xfer::{BufDnsStreamHandle, Protocol};
+use hickory_proto::op::{DnsResponse, Edns, Message, MessageType, OpCode, Query};
+use hickory_proto::rr::rdata::tsig::{make_tsig_record, message_tbs, signed_bitmessage_to_buf, TsigAlgorithm, TsigError, TSIG};
+use hickory_proto::rr::rdata::{A, NS, SOA, TXT};
+use hickory_proto::rr::{DNSClass, LowerName, Name, RData, Record, RecordType, TSigner};
+use hickory_proto::serialize::binary::{BinDecodable, BinDecoder};
+use hickory_server::server::{Request, RequestHandler, ResponseHandle};
+use hickory_server::store::in_memory::InMemoryZoneHandler;
+use hickory_server::store::sqlite::{Journal, SqliteZoneHandler};
+use hickory_server::zone_handler::{AxfrPolicy, Catalog, ZoneHandler, ZoneType};
+
 use crate::common::*;
 
-pub fn run(_o: &Opts, rec: &mut Recorder) {
-    rec.rule = "stub".into();
+// ------------------------------------------------------------------------------------------
+// virtual clock for the server (`Catalog::handle_request::<_, VTime>`)
+
+static NOW: AtomicU64 = AtomicU64::new(0);
+
+#[derive(Clone, Copy)]
+struct VTime;
+
+#[async_trait::async_trait]
+impl Time for VTime {
+    async fn delay_for(duration: Duration) {
+        tokio::time::sleep(duration).await
+    }
+    async fn timeout<F: 'static + Future + Send>(duration: Duration, future: F) -> Result<F::Output, io::Error> {
+        tokio::time::timeout(duration, future)
+            .await
+            .map_err(move |_| io::Error::new(io::ErrorKind::TimedOut, "future timed out"))
+    }
+    fn current_time() -> u64 {
+        NOW.load(Ordering::SeqCst)
+    }
+}
+
+// ------------------------------------------------------------------------------------------
+// key table (key bytes never appear on a case line; `keyid` selects them)
+
+fn key_bytes(id: &str) -> Vec<u8> {
+    match id {
+        "ka" => b"0123456789abcdef0123456789abcdef".to_vec(),
+        "kb" => (0u8..64).map(|i| i.wrapping_mul(7).wrapping_add(3)).collect(),
+        "kx" => b"this-is-not-the-configured-key!!".to_vec(),
+        _ => id.as_bytes().to_vec(),
+    }
+}
+
+fn alg_of(bits: u32) -> Option<TsigAlgorithm> {
+    Some(match bits {
+        256 => TsigAlgorithm::HmacSha256,
+        384 => TsigAlgorithm::HmacSha384,
+        512 => TsigAlgorithm::HmacSha512,
+        _ => return None,
+    })
+}
+
+fn alg_bits(a: &TsigAlgorithm) -> u32 {
+    match a {
+        TsigAlgorithm::HmacSha256 => 256,
+        TsigAlgorithm::HmacSha384 => 384,
+        TsigAlgorithm::HmacSha512 => 512,
+        _ => 0,
+    }
+}
+
+#[derive(Clone)]
+struct SignerSpec {
+    name: Name,
+    bits: u32,
+    fudge: u16,
+    keyid: String,
+}
+
+impl SignerSpec {
+    fn parse(tok: &str) -> Option<Self> {
+        let p: Vec<&str> = tok.split('/').collect();
+        if p.len() != 5 {
+            return None;
+        }
+        Some(Self { name: parse_name(p[0])?, bits: p[1].parse().ok()?, fudge: p[2].parse().ok()?, keyid: p[4].into() })
+    }
+    fn signer(&self) -> Option<TSigner> {
+        TSigner::new(key_bytes(&self.keyid), alg_of(self.bits)?, self.name.clone(), self.fudge).ok()
+    }
+    fn tok(&self, macok: bool) -> String {
+        let mut n = self.name.clone();
+        n.set_fqdn(true);
+        format!("{}/{}/{}/{}/{}", name_tok(&n), self.bits, self.fudge, b(macok), self.keyid)
+    }
+}
+
+// ------------------------------------------------------------------------------------------
+// RFC 8945 reference over raw bytes (independent of hickory's decoder and of the model)
+
+#[derive(Clone, Debug)]
+struct RefTsig {
+    start: usize,
+    end: usize,
+    key_name: Vec<Vec<u8>>,
+    class: u16,
+    ttl: u32,
+    alg_name: Vec<Vec<u8>>,
+    time: u64,
+    fudge: u16,
+    mac: Vec<u8>,
+    oid: u16,
+    error: u16,
+    other: Vec<u8>,
+    /// the algorithm name is written in lower case, uncompressed (the form every signer emits)
+    alg_plain: bool,
+}
+
+fn r16(b: &[u8], i: usize) -> Option<usize> {
+    Some(((*b.get(i)? as usize) << 8) | *b.get(i + 1)? as usize)
+}
+
+/// decodes a (possibly compressed) name at `pos`; returns labels and the offset after it
+fn ref_name(b: &[u8], pos: usize, limit: usize) -> Option<(Vec<Vec<u8>>, usize, bool)> {
+    let mut labels = vec![];
+    let mut p = pos;
+    let mut after = None;
+    let mut hops = 0;
+    let mut plain = true;
+    loop {
+        let l = *b.get(p)? as usize;
+        if p >= limit && after.is_none() {
+            return None;
+        }
+        if l == 0 {
+            return Some((labels, after.unwrap_or(p + 1), plain));
+        } else if l & 0xC0 == 0xC0 {
+            let t = ((l & 0x3F) << 8) | *b.get(p + 1)? as usize;
+            if after.is_none() {
+                after = Some(p + 2);
+            }
+            plain = false;
+            hops += 1;
+            if hops > 64 || t >= p {
+                return None;
+            }
+            p = t;
+        } else if l & 0xC0 == 0 {
+            let s = b.get(p + 1..p + 1 + l)?;
+            labels.push(s.to_vec());
+            p += 1 + l;
+        } else {
+            return None;
+        }
+    }
+}
+
+fn ref_skip_record(b: &[u8], pos: usize) -> Option<usize> {
+    let (_, p, _) = ref_name(b, pos, b.len())?;
+    let rdl = r16(b, p + 8)?;
+    let e = p + 10 + rdl;
+    if e > b.len() { None } else { Some(e) }
+}
+
+/// the TSIG RR as the last record of the additional section, per the header counts
+fn ref_tsig(b: &[u8]) -> Option<RefTsig> {
+    if b.len() < 12 {
+        return None;
+    }
+    let (qd, an, ns, ar) = (r16(b, 4)?, r16(b, 6)?, r16(b, 8)?, r16(b, 10)?);
+    if ar == 0 {
+        return None;
+    }
+    let mut p = 12;
+    for _ in 0..qd {
+        let (_, q, _) = ref_name(b, p, b.len())?;
+        p = q + 4;
+        if p > b.len() {
+            return None;
+        }
+    }
+    for _ in 0..(an + ns + ar - 1) {
+        p = ref_skip_record(b, p)?;
+    }
+    let start = p;
+    let (key_name, q, _) = ref_name(b, p, b.len())?;
+    if r16(b, q)? != 250 {
+        return None;
+    }
+    let class = r16(b, q + 2)? as u16;
+    let ttl = ((r16(b, q + 4)? as u32) << 16) | r16(b, q + 6)? as u32;
+    let rdl = r16(b, q + 8)?;
+    let rd = q + 10;
+    let end = rd + rdl;
+    if end > b.len() || rdl == 0 {
+        return None;
+    }
+    let (alg_name, a, plain) = ref_name(b, rd, end)?;
+    let time = ((r16(b, a)? as u64) << 32) | ((r16(b, a + 2)? as u64) << 16) | r16(b, a + 4)? as u64;
+    let fudge = r16(b, a + 6)? as u16;
+    let ml = r16(b, a + 8)?;
+    let m0 = a + 10;
+    if m0 + ml + 6 > end {
+        return None;
+    }
+    let mac = b[m0..m0 + ml].to_vec();
+    let oid = r16(b, m0 + ml)? as u16;
+    let error = r16(b, m0 + ml + 2)? as u16;
+    let ol = r16(b, m0 + ml + 4)?;
+    if m0 + ml + 6 + ol != end {
+        return None;
+    }
+    let other = b[m0 + ml + 6..end].to_vec();
+    let alg_plain = plain && alg_name.iter().all(|l| !l.iter().any(|c| c.is_ascii_uppercase()));
+    Some(RefTsig { start, end, key_name, class, ttl, alg_name, time, fudge, mac, oid, error, other, alg_plain })
+}
+
+fn lower_wire(labels: &[Vec<u8>]) -> Vec<u8> {
+    let mut o = vec![];
+    for l in labels {
+        o.push(l.len() as u8);
+        o.extend(l.iter().map(|c| c.to_ascii_lowercase()));
+    }
+    o.push(0);
+    o
+}
+
+/// RFC 8945 §4.3: the digest input
+fn ref_tbs(b: &[u8], t: &RefTsig, prev: Option<&[u8]>) -> Vec<u8> {
+    let mut o = vec![];
+    if let Some(m) = prev {
+        o.extend((m.len() as u16).to_be_bytes());
+        o.extend(m);
+    }
+    o.extend(t.oid.to_be_bytes());
+    o.extend(&b[2..10]);
+    let ar = r16(b, 10).unwrap() as u16;
+    o.extend((ar - 1).to_be_bytes());
+    o.extend(&b[12..t.start]);
+    o.extend(lower_wire(&t.key_name));
+    o.extend(t.class.to_be_bytes());
+    o.extend(t.ttl.to_be_bytes());
+    o.extend(lower_wire(&t.alg_name));
+    o.extend(&t.time.to_be_bytes()[2..8]);
+    o.extend(t.fudge.to_be_bytes());
+    o.extend(t.error.to_be_bytes());
+    o.extend((t.other.len() as u16).to_be_bytes());
+    o.extend(&t.other);
+    o
+}
+
+fn lower_labels(n: &Name) -> Vec<Vec<u8>> {
+    n.iter().map(|l| l.to_ascii_lowercase()).collect()
+}
+
+fn alg_labels(bits: u32) -> Vec<Vec<u8>> {
+    vec![format!("hmac-sha{bits}").into_bytes()]
+}
+
+#[derive(Clone, Copy, PartialEq, Debug)]
+enum RefVerdict {
+    /// no TSIG RR at the end, or not decodable
+    Unsigned,
+    UnknownKey,
+    WrongAlg,
+    BadMac,
+    /// everything but the time is right; |now - time| > fudge
+    Stale,
+    /// valid; `strict` = strictly inside the window
+    Valid { strict: bool },
+}
+
+/// "ends with a TSIG record naming a configured key whose full-length MAC verifies over the exact
+/// request bytes and whose time is within fudge of the server clock"
+fn ref_verify(b: &[u8], keys: &[SignerSpec], now: u64, prev: Option<&[u8]>) -> (RefVerdict, Option<RefTsig>) {
+    let Some(t) = ref_tsig(b) else { return (RefVerdict::Unsigned, None) };
+    let kn: Vec<Vec<u8>> = t.key_name.iter().map(|l| l.to_ascii_lowercase()).collect();
+    let Some(k) = keys.iter().find(|k| lower_labels(&k.name) == kn) else { return (RefVerdict::UnknownKey, Some(t)) };
+    let an: Vec<Vec<u8>> = t.alg_name.iter().map(|l| l.to_ascii_lowercase()).collect();
+    if an != alg_labels(k.bits) {
+        return (RefVerdict::WrongAlg, Some(t));
+    }
+    let Some(alg) = alg_of(k.bits) else { return (RefVerdict::WrongAlg, Some(t)) };
+    let tag = alg.mac_data(&key_bytes(&k.keyid), &ref_tbs(b, &t, prev)).unwrap_or_default();
+    if tag.is_empty() || tag != t.mac {
+        return (RefVerdict::BadMac, Some(t));
+    }
+    let (now, time, f) = (now as i128, t.time as i128, t.fudge as i128);
+    if (now - time).abs() > f {
+        return (RefVerdict::Stale, Some(t));
+    }
+    (RefVerdict::Valid { strict: (now - time).abs() < f }, Some(t))
+}
+
+/// The five classes recorded while this check was built (C13.TimeLtFudge, C13.CountOverflow,
+/// C13.DoubleTsig, C13.ZBitUnauthenticated, C13.TsigClassTtlUnchecked) were repaired in /repo
+/// (cdba272, 46a3964, 84e713d): the old behaviours are ordinary, unclassified violations now.
+fn deviation_class(_b: &[u8], _t: Option<&RefTsig>) -> &'static str {
+    ""
+}
+
+fn panic_class(msg: &str) -> (&'static str, String) {
+    ("", msg.to_string())
+}
+
+// ------------------------------------------------------------------------------------------
+// parse summary handed to the model: `rdok`
+
+/// `false` iff some record whose *frame* (owner name, type, class, ttl, rdlength within the
+/// message) is readable and whose type is not TSIG is rejected by the real `Record::read`.
+fn rdok(b: &[u8]) -> bool {
+    catch(|| {
+        if b.len() < 12 {
+            return true;
+        }
+        let (qd, an, ns, ar) = (r16(b, 4).unwrap(), r16(b, 6).unwrap(), r16(b, 8).unwrap(), r16(b, 10).unwrap());
+        let mut d = BinDecoder::new(b);
+        let _ = d.read_slice(12);
+        for _ in 0..qd {
+            if Query::read(&mut d).is_err() {
+                return true;
+            }
+        }
+        for _ in 0..(an + ns + ar) {
+            let pos = b.len() - d.len();
+            // frame, with the real name decoder
+            let mut f = d.clone(pos as u16);
+            let Ok(_) = Name::read(&mut f) else { return true };
+            let p = b.len() - f.len();
+            let (Some(ty), Some(rdl)) = (r16(b, p), r16(b, p + 8)) else { return true };
+            let e = p + 10 + rdl;
+            if e > b.len() {
+                return true;
+            }
+            let mut r = d.clone(pos as u16);
+            if Record::read(&mut r).is_err() && ty != 250 {
+                return false;
+            }
+            d = d.clone(e as u16);
+        }
+        true
+    })
+    .unwrap_or(true)
+}
+
+// ------------------------------------------------------------------------------------------
+// the real TSIG functions, canonicalised
+
+fn sig_tok(r: &Record<TSIG>, start: usize, stop: usize) -> String {
+    let t = &r.data;
+    let mut alg = t.algorithm.to_name();
+    alg.set_fqdn(false);
+    format!(
+        "{} {} {} {} {} {} {} {} {} {} {} {}",
+        start,
+        stop,
+        name_tok(&r.name),
+        u16::from(r.dns_class),
+        r.ttl,
+        name_tok(&alg),
+        t.time,
+        t.fudge,
+        hex(&t.mac),
+        t.oid,
+        t.error.map(u16::from).unwrap_or(0),
+        hex(&t.other)
+    )
+}
+
+fn unhex_opt(s: &str) -> Option<Option<Vec<u8>>> {
+    if s == "~" { Some(None) } else { unhex(s).map(Some) }
+}
+
+/// real `signed_bitmessage_to_buf` → canonical line + the pieces
+fn real_tbs(buf: &[u8], prev: Option<&[u8]>, first: bool) -> Result<Result<(Vec<u8>, Box<Record<TSIG>>), ()>, String> {
+    catch(|| signed_bitmessage_to_buf(buf, prev, first).map_err(|_| ()))
+}
+
+fn macok_for(sg: &SignerSpec, buf: &[u8], prev: Option<&[u8]>, first: bool) -> bool {
+    let Some(s) = sg.signer() else { return false };
+    match real_tbs(buf, prev, first) {
+        Ok(Ok((tbs, rec))) => s.verify(&tbs, &rec.data.mac).is_ok(),
+        _ => false,
+    }
+}
+
+struct CaseOut {
+    line: String,
+    out: String,
+    fails: Vec<(String, &'static str)>,
+    nontrivial: bool,
+    stats: Vec<String>,
+}
+
+fn panic_out(msg: &str, what: &str, fails: &mut Vec<(String, &'static str)>) -> String {
+    let (class, site) = panic_class(msg);
+    fails.push((format!("{what} panicked: {msg}"), class));
+    format!("panic {site}")
+}
+
+fn exec_tbs(t: &[&str]) -> Option<CaseOut> {
+    let [_, buf, prev, first, _] = t else { return None };
+    let buf = unhex(buf)?;
+    let prev = unhex_opt(prev)?;
+    let first = *first == "1";
+    let ok = rdok(&buf);
+    let line = format!("tbs {} {} {} {}", hex(&buf), prev.as_deref().map(hex).unwrap_or("~".into()), b(first), b(ok));
+    let mut fails = vec![];
+    let mut stats = vec![format!("tbs.rdok.{}", b(ok))];
+    let mut nontrivial = false;
+    let out = match real_tbs(&buf, prev.as_deref(), first) {
+        Ok(Ok((tbs, rec))) => {
+            nontrivial = true;
+            stats.push("tbs.ok".into());
+            // independent: where the reference finds the TSIG RR
+            let (start, stop) = match ref_tsig(&buf) {
+                Some(r) => (r.start, r.end),
+                None => {
+                    fails.push(("signed_bitmessage_to_buf accepted a message in which the reference finds no final TSIG RR".into(), ""));
+                    (0, 0)
+                }
+            };
+            format!("ok {} {}", hex(&tbs), sig_tok(&rec, start, stop))
+        }
+        Ok(Err(())) => {
+            stats.push("tbs.err".into());
+            "err".into()
+        }
+        Err(p) => {
+            stats.push("tbs.panic".into());
+            panic_out(&p, "signed_bitmessage_to_buf", &mut fails)
+        }
+    };
+    Some(CaseOut { line, out, fails, nontrivial, stats })
+}
+
+fn exec_vmb(t: &[&str]) -> Option<CaseOut> {
+    let [_, sg, buf, prev, first, _] = t else { return None };
+    let sg = SignerSpec::parse(sg)?;
+    let signer = sg.signer()?;
+    let buf = unhex(buf)?;
+    let prev = unhex_opt(prev)?;
+    let first = *first == "1";
+    let ok = rdok(&buf);
+    let mok = macok_for(&sg, &buf, prev.as_deref(), first);
+    let line = format!("vmb {} {} {} {} {}", sg.tok(mok), hex(&buf), prev.as_deref().map(hex).unwrap_or("~".into()), b(first), b(ok));
+    let mut fails = vec![];
+    let mut stats = vec![format!("vmb.macok.{}", b(mok))];
+    let r = catch(|| signer.verify_message_byte(&buf, prev.as_deref(), first).map_err(|_| ()));
+    let mut nontrivial = false;
+    let out = match r {
+        Ok(Ok((mac, time, range))) => {
+            nontrivial = true;
+            stats.push("vmb.ok".into());
+            // oracle: accepted ⇒ the reference accepts key, algorithm and MAC
+            let (v, rt) = ref_verify(&buf, std::slice::from_ref(&sg), time, prev.as_deref());
+            if first && !matches!(v, RefVerdict::Valid { .. }) {
+                fails.push((format!("verify_message_byte accepted a message the RFC 8945 reference rejects ({v:?})"), deviation_class(&buf, rt.as_ref())));
+            }
+            format!("ok {} {} {} {}", hex(&mac), time, range.start, range.end)
+        }
+        Ok(Err(())) => {
+            stats.push("vmb.err".into());
+            "err".into()
+        }
+        Err(p) => {
+            stats.push("vmb.panic".into());
+            panic_out(&p, "verify_message_byte", &mut fails)
+        }
+    };
+    Some(CaseOut { line, out, fails, nontrivial, stats })
+}
+
+fn exec_stbs(t: &[&str]) -> Option<CaseOut> {
+    let [_, sg, reqmac, resp, oid, time, error] = t else { return None };
+    let sg = SignerSpec::parse(sg)?;
+    let signer = sg.signer()?;
+    let (reqmac, resp) = (unhex(reqmac)?, unhex(resp)?);
+    let (oid, time, error): (u16, u64, u16) = (oid.parse().ok()?, time.parse().ok()?, error.parse().ok()?);
+    let line = format!("stbs {} {} {} {} {} {}", sg.tok(false), hex(&reqmac), hex(&resp), oid, time, error);
+    let stub = TSIG::new(alg_of(sg.bits)?, time, sg.fudge, vec![], oid, if error == 0 { None } else { Some(TsigError::from(error)) }, vec![]);
+    let mut fails = vec![];
+    let out = match catch(|| signer.encode_response_tbs(&reqmac, &resp, &stub).map_err(|_| ())) {
+        Ok(Ok(v)) => hex(&v),
+        Ok(Err(())) => "err".into(),
+        Err(p) => panic_out(&p, "encode_response_tbs", &mut fails),
+    };
+    Some(CaseOut { line, out, fails, nontrivial: true, stats: vec!["stbs".into()] })
+}
+
+/// `vfy <signer> <prevmac> <rt> <qt> <buf> <rdok> <pok> <unsigned-req> <first-reply|~>`
+fn exec_vfy(t: &[&str]) -> Option<CaseOut> {
+    let [_, sg, _, _, qt, buf, _, _, req, first_reply] = t else { return None };
+    let sg = SignerSpec::parse(sg)?;
+    let signer = sg.signer()?;
+    let qt: u64 = qt.parse().ok()?;
+    let buf = unhex(buf)?;
+    let req = unhex(req)?;
+    let first_reply = unhex_opt(first_reply)?;
+    // rebuild the verifier exactly as a client gets it: by signing the request
+    let mut m = Message::from_vec(&req).ok()?;
+    let mut verifier = m.finalize(&signer, qt).ok()??;
+    let mut prev = m.signature()?.data.mac.clone();
+    let mut rt = 0u64;
+    if let Some(fr) = &first_reply {
+        // an earlier message of the chain, which must verify
+        let r0 = ref_tsig(fr)?;
+        catch(|| verifier.verify(fr)).ok()?.ok()?;
+        prev = r0.mac.clone();
+        rt = r0.time;
+    }
+    let first = rt == 0;
+    let ok = rdok(&buf);
+    let pok = catch(|| DnsResponse::from_buffer(buf.clone()).is_ok()).unwrap_or(false);
+    let mok = macok_for(&sg, &buf, Some(&prev), first);
+    let line = format!(
+        "vfy {} {} {} {} {} {} {} {} {}",
+        sg.tok(mok),
+        hex(&prev),
+        rt,
+        qt,
+        hex(&buf),
+        b(ok),
+        b(pok),
+        hex(&req),
+        first_reply.as_deref().map(hex).unwrap_or("~".into())
+    );
+    let mut fails = vec![];
+    let mut stats = vec![format!("vfy.first.{}", b(first))];
+    let mut nontrivial = false;
+    let out = match catch(|| verifier.verify(&buf).map(|_| ()).map_err(|_| ())) {
+        Ok(Ok(())) => {
+            nontrivial = true;
+            stats.push("vfy.accept".into());
+            let r = ref_tsig(&buf);
+            // oracle: an accepted reply is one the reference accepts (MAC chained on the request
+            // MAC, over the exact reply bytes, request time within the reply's window)
+            let (v, rt_) = ref_verify(&buf, std::slice::from_ref(&sg), qt, Some(&prev));
+            if first && !matches!(v, RefVerdict::Valid { .. }) {
+                fails.push((format!("TSigVerifier::verify accepted a reply the RFC 8945 reference rejects ({v:?})"), deviation_class(&buf, rt_.as_ref())));
+            }
+            match r {
+                Some(r) => format!("ok {} {}", hex(&r.mac), r.time),
+                None => "ok ? ?".into(),
+            }
+        }
+        Ok(Err(())) => {
+            stats.push("vfy.reject".into());
+            // oracle: a reply that is valid under the reference, strictly inside its window and in
+            // the form every signer emits must be accepted by the first verification
+            let (v, rt_) = ref_verify(&buf, std::slice::from_ref(&sg), qt, Some(&prev));
+            let canonical = rt_.as_ref().is_some_and(|t| t.alg_plain && t.class == 255 && t.ttl == 0 && t.other.is_empty()) && buf[3] & 0x40 == 0;
+            if first && pok && canonical && matches!(v, RefVerdict::Valid { strict: true }) {
+                fails.push(("TSigVerifier::verify rejected a reply that is valid and timely under the RFC 8945 reference".into(), ""));
+            }
+            "err".into()
+        }
+        Err(p) => {
+            stats.push("vfy.panic".into());
+            panic_out(&p, "TSigVerifier::verify", &mut fails)
+        }
+    };
+    Some(CaseOut { line, out, fails, nontrivial, stats })
+}
+
+// ------------------------------------------------------------------------------------------
+// the server
+
+fn origin() -> Name {
+    Name::from_ascii("example.com.").unwrap()
+}
+
+fn build_zone(policy: AxfrPolicy, allow_update: bool, signers: Vec<TSigner>, journal: Option<&std::path::Path>, rt: &tokio::runtime::Runtime) -> Arc<SqliteZoneHandler> {
+    let o = origin();
+    let mut z = InMemoryZoneHandler::<TokioRuntimeProvider>::empty(o.clone(), ZoneType::Primary, AxfrPolicy::AllowAll, None);
+    let soa = SOA::new(Name::from_ascii("ns.example.com.").unwrap(), Name::from_ascii("admin.example.com.").unwrap(), 20260101, 7200, 3600, 360000, 60);
+    z.upsert_mut(Record::from_rdata(o.clone(), 3600, RData::SOA(soa)), 0);
+    z.upsert_mut(Record::from_rdata(o.clone(), 3600, RData::NS(NS(Name::from_ascii("ns.example.com.").unwrap()))), 0);
+    z.upsert_mut(Record::from_rdata(Name::from_ascii("ns.example.com.").unwrap(), 3600, RData::A(A::new(192, 0, 2, 1))), 0);
+    z.upsert_mut(Record::from_rdata(Name::from_ascii("www.example.com.").unwrap(), 300, RData::A(A::new(192, 0, 2, 80))), 0);
+    let mut h = SqliteZoneHandler::new(z, policy, allow_update, false);
+    h.set_tsig_signers(signers);
+    if let Some(p) = journal {
+        let _ = std::fs::remove_file(p);
+        let j = Journal::from_file(p).expect("journal");
+        rt.block_on(h.set_journal(j));
+        rt.block_on(h.persist_to_journal()).expect("persist");
+    }
+    Arc::new(h)
+}
+
+fn zone_dump(h: &SqliteZoneHandler, rt: &tokio::runtime::Runtime) -> (String, u32) {
+    rt.block_on(async {
+        let recs = h.records().await;
+        let mut s = String::new();
+        for (_, set) in recs.iter() {
+            for r in set.records_without_rrsigs() {
+                s.push_str(&format!("{} {} {} {};", r.name, r.record_type(), r.ttl, r.data));
+            }
+        }
+        (s, h.serial().await)
+    })
+}
+
+fn journal_rows(h: &SqliteZoneHandler, rt: &tokio::runtime::Runtime) -> usize {
+    rt.block_on(async {
+        match h.journal().await.as_ref() {
+            Some(j) => j.iter().count(),
+            None => 0,
+        }
+    })
+}
+
+fn policy_of(s: &str) -> Option<AxfrPolicy> {
+    Some(match s {
+        "deny" => AxfrPolicy::Deny,
+        "all" => AxfrPolicy::AllowAll,
+        "signed" => AxfrPolicy::AllowSigned,
+        _ => return None,
+    })
+}
+
+struct Ctx {
+    rt: tokio::runtime::Runtime,
+    journal_path: std::path::PathBuf,
+}
+
+/// `srv <origin> <au> <pol> <signers|-> <now> <buf> <rdok> <journal>`
+fn exec_srv(t: &[&str], cx: &Ctx) -> Option<CaseOut> {
+    let [_, org, au, pol, sgs, now, buf, _, jr] = t else { return None };
+    if parse_name(org)? != origin() {
+        return None;
+    }
+    let au = *au == "1";
+    let policy = policy_of(pol)?;
+    let specs: Vec<SignerSpec> = if *sgs == "-" { vec![] } else { sgs.split(',').map(SignerSpec::parse).collect::<Option<_>>()? };
+    let now: u64 = now.parse().ok()?;
+    let buf = unhex(buf)?;
+    let jr = *jr == "1";
+    let ok = rdok(&buf);
+    let sg_toks: Vec<String> = specs.iter().map(|s| s.tok(macok_for(s, &buf, None, true))).collect();
+    let line = format!(
+        "srv {} {} {} {} {} {} {} {}",
+        org,
+        b(au),
+        pol,
+        if sg_toks.is_empty() { "-".into() } else { sg_toks.join(",") },
+        now,
+        hex(&buf),
+        b(ok),
+        b(jr)
+    );
+    let mut fails: Vec<(String, &'static str)> = vec![];
+    let mut stats = vec![];
+    let src: SocketAddr = "127.0.0.1:5300".parse().unwrap();
+
+    // the property's own reading of the request
+    let (verdict, rtsig) = ref_verify(&buf, &specs, now, None);
+    stats.push(format!("srv.ref.{}", match verdict {
+        RefVerdict::Unsigned => "unsigned",
+        RefVerdict::UnknownKey => "unknown-key",
+        RefVerdict::WrongAlg => "wrong-alg",
+        RefVerdict::BadMac => "bad-mac",
+        RefVerdict::Stale => "stale",
+        RefVerdict::Valid { .. } => "valid",
+    }));
+
+    let request = match catch(|| Request::from_bytes(buf.clone(), src, Protocol::Tcp)) {
+        Ok(Ok(r)) => r,
+        Ok(Err(_)) => {
+            stats.push("srv.noparse".into());
+            return Some(CaseOut { line, out: "noparse".into(), fails, nontrivial: false, stats });
+        }
+        Err(p) => {
+            let out = panic_out(&p, "Request::from_bytes", &mut fails);
+            return Some(CaseOut { line, out, fails, nontrivial: false, stats });
+        }
+    };
+
+    // dispatch as the catalog will do it, read off the really parsed request
+    let qtype = request.queries.query_type();
+    let in_zone = LowerName::new(&origin()).zone_of(request.queries.name());
+    let kind = if request.edns.as_ref().is_some_and(|e| e.version() > 0) || request.metadata.message_type == MessageType::Response {
+        "other"
+    } else {
+        match request.metadata.op_code {
+            OpCode::Update if qtype == RecordType::SOA && in_zone => "upd",
+            OpCode::Query if qtype == RecordType::AXFR && in_zone => "axfr",
+            _ => "other",
+        }
+    };
+    stats.push(format!("srv.kind.{kind}"));
+
+    let signers: Vec<TSigner> = specs.iter().filter_map(|s| s.signer()).collect();
+    let handler = build_zone(policy, au, signers, if jr { Some(&cx.journal_path) } else { None }, &cx.rt);
+    let mut catalog = Catalog::new();
+    catalog.upsert(LowerName::new(&origin()), vec![handler.clone() as Arc<dyn ZoneHandler>]);
+    let before = zone_dump(&handler, &cx.rt);
+    let rows_before = journal_rows(&handler, &cx.rt);
+
+    NOW.store(now, Ordering::SeqCst);
+    let (stream, mut receiver) = BufDnsStreamHandle::new(src);
+    let handle = ResponseHandle::new(src, stream, Protocol::Tcp);
+    let run = catch(|| cx.rt.block_on(catalog.handle_request::<_, VTime>(&request, handle)));
+    let after = zone_dump(&handler, &cx.rt);
+    let rows_after = journal_rows(&handler, &cx.rt);
+    let changed = before != after || rows_before != rows_after;
+
+    let req_sig = request.signature.as_ref().map(|s| (s.name.clone(), s.data.clone()));
+    let mut nontrivial = false;
+    let out = match run {
+        Err(p) => {
+            if changed {
+                fails.push(("zone changed although the handler panicked".into(), ""));
+            }
+            stats.push("srv.panic".into());
+            panic_out(&p, "Catalog::handle_request", &mut fails)
+        }
+        Ok(()) => {
+            let reply = receiver.next().now_or_never().flatten().map(|m| m.into_parts().0);
+            let Some(reply) = reply else {
+                fails.push(("no reply was sent".into(), ""));
+                return Some(CaseOut { line, out: "noreply".into(), fails, nontrivial, stats });
+            };
+            let Ok(rm) = Message::from_vec(&reply) else {
+                fails.push(("reply does not decode".into(), ""));
+                return Some(CaseOut { line, out: "badreply".into(), fails, nontrivial, stats });
+            };
+            let rc = u16::from(rm.metadata.response_code);
+            let data = !rm.answers.is_empty();
+            let effect = if kind == "upd" { changed } else { data };
+            let rtsig_tok = match rm.signature() {
+                None => "none".to_string(),
+                Some(s) => format!(
+                    "{}/{}/{}/{}/{}/{}/{}",
+                    name_tok(&s.name),
+                    alg_bits(&s.data.algorithm),
+                    s.data.fudge,
+                    s.data.error.map(u16::from).unwrap_or(0),
+                    s.data.mac.len(),
+                    s.data.oid,
+                    s.data.time
+                ),
+            };
+            stats.push(format!("srv.{kind}.rc{rc}.eff{}", b(effect)));
+
+            // ---- the property's table -------------------------------------------------
+            let valid = matches!(verdict, RefVerdict::Valid { .. });
+            let class = deviation_class(&buf, rtsig.as_ref());
+            if changed && kind != "upd" {
+                fails.push((format!("zone changed by a request that is not an UPDATE for the zone ({kind})"), ""));
+            }
+            if kind == "upd" && changed && !(au && valid) {
+                fails.push((format!("zone changed by an update that is not (allowed ∧ signed ∧ valid ∧ timely): allow_update={au} reference={verdict:?}"), class));
+            }
+            if kind == "axfr" && data {
+                let allowed = match policy {
+                    AxfrPolicy::Deny => false,
+                    AxfrPolicy::AllowAll => true,
+                    AxfrPolicy::AllowSigned => valid,
+                };
+                if !allowed {
+                    fails.push((format!("zone data returned for a transfer that the policy {pol} does not admit: reference={verdict:?}"), class));
+                }
+            }
+            // a canonical, valid, strictly timely request under an admitting policy takes effect
+            let canonical = rtsig.as_ref().is_some_and(|t| t.alg_plain && t.class == 255 && t.ttl == 0 && t.error == 0 && t.other.is_empty())
+                && buf.len() > 3
+                && buf[3] & 0x40 == 0;
+            if matches!(verdict, RefVerdict::Valid { strict: true }) && canonical && !effect {
+                let expected = (kind == "upd" && au) || (kind == "axfr" && policy != AxfrPolicy::Deny);
+                if expected {
+                    fails.push(("a correctly signed, timely request was refused".into(), ""));
+                }
+            }
+            // the reply to an accepted signed request verifies on the client side …
+            if let (Some((kname, rq)), Some(rs)) = (&req_sig, rm.signature()) {
+                if !rs.data.mac.is_empty() {
+                    nontrivial = true;
+                    if let Some(spec) = specs.iter().find(|s| lower_labels(&s.name) == lower_labels(kname)) {
+                        // (MAC chained on the request MAC over the exact reply bytes; whether the
+                        // client's clock is within the *reply's* fudge is the client's business:
+                        // `Stale` is not held against the server)
+                        let (v, _) = ref_verify(&reply, std::slice::from_ref(spec), rq.time, Some(&rq.mac));
+                        if !matches!(v, RefVerdict::Valid { .. } | RefVerdict::Stale) {
+                            fails.push((format!("signed reply does not verify under the RFC 8945 reference ({v:?})"), ""));
+                        }
+                        match catch(|| spec.signer().unwrap().verify_message_byte(&reply, Some(&rq.mac), true).is_ok()) {
+                            Ok(true) => {}
+                            Ok(false) => fails.push(("signed reply is rejected by TSigner::verify_message_byte".into(), "")),
+                            Err(p) => {
+                                let (class, _) = panic_class(&p);
+                                fails.push((format!("TSigner::verify_message_byte panicked on the server's signed reply: {p}"), class));
+                            }
+                        }
+                    }
+                }
+            }
+            if !effect && data {
+                fails.push(("zone data in a refused reply".into(), ""));
+            }
+            if kind == "other" { "other".to_string() } else { format!("{kind} eff={} rc={rc} rtsig={rtsig_tok}", b(effect)) }
+        }
+    };
+    Some(CaseOut { line, out, fails, nontrivial, stats })
+}
+
+/// `ssm <buf>` — `TSigner::should_sign_message` on the message the bytes decode to (header and
+/// questions only on the model side, so records are cut off first)
+fn exec_ssm(t: &[&str]) -> Option<CaseOut> {
+    let [_, buf] = t else { return None };
+    let buf = unhex(buf)?;
+    let line = format!("ssm {}", hex(&buf));
+    let out = match catch(|| {
+        let mut d = BinDecoder::new(&buf);
+        let h = hickory_proto::op::Header::read(&mut d).ok()?;
+        let qs = Message::read_queries(&mut d, h.counts.queries as usize).ok()?;
+        let mut m = Message::new(h.metadata.id, h.metadata.message_type, h.metadata.op_code);
+        m.add_queries(qs);
+        Some(sa().signer().unwrap().should_sign_message(&m))
+    }) {
+        Ok(Some(v)) => b(v).to_string(),
+        Ok(None) => "err".into(),
+        Err(p) => format!("panic {p}"),
+    };
+    let nontrivial = out == "1";
+    Some(CaseOut { line, out, fails: vec![], nontrivial, stats: vec!["ssm".into()] })
+}
+
+/// `bigxfr <extra records> <udp|tcp> <edns payload|0>` — implementation-vs-oracle only (`~`): a signed
+/// AXFR of a zone with many records; if the reply carries a MAC it must verify with the verifier
+/// the client kept, whatever the size limit did to the message.
+fn exec_bigxfr(t: &[&str], cx: &Ctx) -> Option<CaseOut> {
+    let [_, extra, proto, payload] = t else { return None };
+    let extra: u32 = extra.parse().ok()?;
+    let payload: u16 = payload.parse().ok()?;
+    let protocol = match *proto {
+        "udp" => Protocol::Udp,
+        "tcp" => Protocol::Tcp,
+        _ => return None,
+    };
+    let line = format!("bigxfr {extra} {proto} {payload}");
+    let mut fails: Vec<(String, &'static str)> = vec![];
+    let signer = sa();
+    let s = signer.signer()?;
+    let handler = build_zone(AxfrPolicy::AllowSigned, false, vec![s.clone()], None, &cx.rt);
+    for i in 0..extra {
+        let name = Name::from_ascii(format!("host-{i:05}.example.com.")).unwrap();
+        cx.rt.block_on(handler.upsert(Record::from_rdata(name, 300, RData::TXT(TXT::new(vec![format!("record number {i} of a zone that does not fit a small message")]))), 0));
+    }
+    let mut catalog = Catalog::new();
+    catalog.upsert(LowerName::new(&origin()), vec![handler.clone() as Arc<dyn ZoneHandler>]);
+    let mut m = axfr_msg(4242);
+    if payload > 0 {
+        let mut e = Edns::new();
+        e.set_max_payload(payload);
+        m.set_edns(e);
+    }
+    let mut verifier = m.finalize(&s, T0).ok()??;
+    let src: SocketAddr = "127.0.0.1:5300".parse().unwrap();
+    let request = Request::from_bytes(m.to_vec().ok()?, src, protocol).ok()?;
+    NOW.store(T0, Ordering::SeqCst);
+    let (stream, mut receiver) = BufDnsStreamHandle::new(src);
+    let handle = ResponseHandle::new(src, stream, protocol);
+    let mut stats = vec![format!("bigxfr.{proto}")];
+    match catch(|| cx.rt.block_on(catalog.handle_request::<_, VTime>(&request, handle))) {
+        Err(p) => {
+            panic_out(&p, "Catalog::handle_request", &mut fails);
+        }
+        Ok(()) => match receiver.next().now_or_never().flatten().map(|m| m.into_parts().0) {
+            None => {
+                stats.push("bigxfr.noreply".into());
+                fails.push(("no reply to a correctly signed AXFR".into(), "C13.ReplyTruncatedAfterSigning"));
+            }
+            Some(reply) => {
+                let rm = Message::from_vec(&reply).ok();
+                let signed = rm.as_ref().and_then(|m| m.signature()).is_some_and(|s| !s.data.mac.is_empty());
+                let tc = rm.as_ref().is_some_and(|m| m.metadata.truncation);
+                let n = rm.as_ref().map(|m| m.answers.len()).unwrap_or(0);
+                stats.push(format!("bigxfr.reply.signed{}.tc{}", b(signed), b(tc)));
+                stats.push(format!("bigxfr.{extra}.{proto}.{payload}.len{}.answers{n}.signed{}.tc{}", reply.len(), b(signed), b(tc)));
+                if signed {
+                    match catch(|| verifier.verify(&reply).is_ok()) {
+                        Ok(true) => {}
+                        Ok(false) => fails.push((
+                            format!("the MAC'ed reply to a correctly signed AXFR ({} octets, {n} answers, TC={tc}) is rejected by the client's TSigVerifier", reply.len()),
+                            "C13.ReplyTruncatedAfterSigning",
+                        )),
+                        Err(p) => {
+                            panic_out(&p, "TSigVerifier::verify", &mut fails);
+                        }
+                    }
+                } else if !tc {
+                    fails.push(("unsigned, untruncated reply to a correctly signed AXFR".into(), ""));
+                }
+            }
+        },
+    }
+    Some(CaseOut { line, out: "~".into(), fails, nontrivial: true, stats })
+}
+
+fn exec(line: &str, rec: &mut Recorder, cx: &Ctx) {
+    let t: Vec<&str> = line.split_whitespace().collect();
+    let r = catch(|| match t.first().copied() {
+        Some("tbs") => exec_tbs(&t),
+        Some("vmb") => exec_vmb(&t),
+        Some("stbs") => exec_stbs(&t),
+        Some("vfy") => exec_vfy(&t),
+        Some("srv") => exec_srv(&t, cx),
+        Some("bigxfr") => exec_bigxfr(&t, cx),
+        Some("ssm") => exec_ssm(&t),
+        _ => None,
+    });
+    match r {
+        Ok(Some(c)) => {
+            if c.out == "~" {
+                rec.impl_only += 1;
+            }
+            let idx = rec.case(c.line, c.out);
+            rec.stat(&format!("op.{}", t[0]));
+            for s in c.stats {
+                rec.stat(&s);
+            }
+            if c.nontrivial {
+                rec.nontrivial(idx);
+            }
+            for (what, class) in c.fails {
+                rec.fail(idx, what, class);
+            }
+        }
+        Ok(None) => rec.stat("skipped.unparsable-case"),
+        Err(p) => {
+            let idx = rec.case(line.to_string(), format!("panic {p}"));
+            rec.fail(idx, format!("harness panic: {p}"), "");
+        }
+    }
+}
+
+// ------------------------------------------------------------------------------------------
+// generator
+
+const T0: u64 = 1_700_000_000;
+
+fn spec(name: &str, bits: u32, fudge: u16, keyid: &str) -> SignerSpec {
+    SignerSpec { name: Name::from_ascii(name).unwrap(), bits, fudge, keyid: keyid.into() }
+}
+
+fn sa() -> SignerSpec {
+    spec("tsig-key.", 256, 300, "ka")
+}
+fn sb() -> SignerSpec {
+    spec("K2.example.com.", 512, 60, "kb")
+}
+
+fn update_msg(id: u16, n: u32, with_edns: bool, txt: bool) -> Message {
+    let mut m = Message::new(id, MessageType::Query, OpCode::Update);
+    m.add_query(Query::new(origin(), RecordType::SOA));
+    let name = Name::from_ascii(format!("h{n}.example.com.")).unwrap();
+    let rec = if txt {
+        Record::from_rdata(name, 120, RData::TXT(TXT::new(vec![format!("v={n}")])))
+    } else {
+        Record::from_rdata(name, 120, RData::A(A::new(10, (n >> 16) as u8, (n >> 8) as u8, n as u8)))
+    };
+    m.add_authority(rec);
+    if with_edns {
+        let mut e = Edns::new();
+        e.set_max_payload(1232);
+        m.set_edns(e);
+    }
+    m
+}
+
+/// a seeded, always-effective update of richer shape: a satisfied prerequisite, 1-3 additions
+/// under names that share suffixes (compression), mixed case, optional EDNS
+fn rich_update(rng: &mut Rng, n: u32) -> Message {
+    let mut m = Message::new(rng.next() as u16, MessageType::Query, OpCode::Update);
+    let zone = if rng.chance(1, 2) { origin() } else { Name::from_ascii("Example.COM.").unwrap() };
+    m.add_query(Query::new(zone, RecordType::SOA));
+    if rng.chance(1, 2) {
+        // "name is in use" (class ANY, type ANY, empty RDATA) for an existing name
+        let mut pre = Record::update0(Name::from_ascii("www.example.com.").unwrap(), 0, RecordType::ANY).into_record_of_rdata();
+        pre.dns_class = DNSClass::ANY;
+        m.add_answer(pre);
+    }
+    if rng.chance(1, 3) {
+        // "RRset does not exist" (class NONE) for a name that is not there
+        let mut pre = Record::update0(Name::from_ascii(format!("absent{n}.example.com.")).unwrap(), 0, RecordType::A).into_record_of_rdata();
+        pre.dns_class = DNSClass::NONE;
+        m.add_answer(pre);
+    }
+    let k = rng.range(1, 3);
+    for j in 0..k {
+        let label: String = (0..rng.range(1, 20)).map(|_| *rng.pick(&[b'a', b'B', b'c', b'0', b'-', b'x', b'Y']) as char).collect();
+        let name = Name::from_ascii(format!("L{label}.r{n}x{j}.example.com.")).unwrap();
+        let rec = match rng.below(3) {
+            0 => Record::from_rdata(name, rng.range(1, 86400) as u32, RData::A(A::new(10, rng.byte(), rng.byte(), rng.byte()))),
+            1 => Record::from_rdata(name, rng.range(1, 86400) as u32, RData::TXT(TXT::new(vec![format!("n={n} j={j}"), "x".repeat(rng.range(0, 40) as usize)]))),
+            _ => Record::from_rdata(name, rng.range(1, 86400) as u32, RData::NS(NS(Name::from_ascii(format!("ns{j}.example.com.")).unwrap()))),
+        };
+        m.add_authority(rec);
+    }
+    if rng.chance(1, 2) {
+        let mut e = Edns::new();
+        e.set_max_payload(*rng.pick(&[512u16, 1232, 4096]));
+        m.set_edns(e);
+    }
+    m
+}
+
+fn axfr_msg(id: u16) -> Message {
+    let mut m = Message::new(id, MessageType::Query, OpCode::Query);
+    m.add_query(Query::new(origin(), RecordType::AXFR));
+    m
+}
+
+/// signs `m` with arbitrary TSIG fields (what a key holder *can* send)
+#[allow(clippy::too_many_arguments)]
+fn sign_with(m: &Message, key_name: &Name, alg: TsigAlgorithm, key: &[u8], mac_alg: &TsigAlgorithm, time: u64, fudge: u16, oid: u16, error: Option<TsigError>, other: Vec<u8>) -> Option<Vec<u8>> {
+    let pre = TSIG::new(alg, time, fudge, vec![], oid, error, other);
+    let mut kn = key_name.clone();
+    kn.set_fqdn(true);
+    let tbs = message_tbs(m, &pre, &kn).ok()?;
+    let mac = mac_alg.mac_data(key, &tbs).ok()?;
+    let mut m = m.clone();
+    m.set_signature(Box::new(make_tsig_record(kn, pre.set_mac(mac))));
+    m.to_vec().ok()
+}
+
+fn sign_plain(m: &Message, s: &SignerSpec, time: u64) -> Vec<u8> {
+    let mut m = m.clone();
+    m.finalize(&s.signer().unwrap(), time).unwrap();
+    m.to_vec().unwrap()
+}
+
+fn cfg_line(au: bool, pol: &str, keys: &[SignerSpec], now: u64, buf: &[u8], journal: bool) -> String {
+    let sg: Vec<String> = keys.iter().map(|s| s.tok(false)).collect();
+    format!(
+        "srv {} {} {} {} {} {} ? {}",
+        name_tok(&origin()),
+        b(au),
+        pol,
+        if sg.is_empty() { "-".into() } else { sg.join(",") },
+        now,
+        hex(buf),
+        b(journal)
+    )
+}
+
+struct Gen<'a> {
+    rec: &'a mut Recorder,
+    cx: &'a Ctx,
+    rng: Rng,
+}
+
+impl Gen<'_> {
+    fn run(&mut self, line: String) {
+        exec(&line, self.rec, self.cx);
+    }
+    fn raw(&mut self, buf: &[u8], s: &SignerSpec) {
+        self.run(format!("tbs {} ~ 1 ?", hex(buf)));
+        self.run(format!("vmb {} {} ~ 1 ?", s.tok(false), hex(buf)));
+    }
+    /// one request against the standard admitting configuration + the raw functions
+    fn probe(&mut self, buf: &[u8], now: u64, keys: &[SignerSpec]) {
+        self.run(cfg_line(true, "signed", keys, now, buf, false));
+        let s = keys[0].clone();
+        self.raw(buf, &s);
+    }
+}
+
+fn patch16(b: &mut [u8], i: usize, v: u16) {
+    b[i] = (v >> 8) as u8;
+    b[i + 1] = v as u8;
+}
+
+/// mutations of one signed message: returns (tag, bytes)
+fn mutations(base: &[u8], rng: &mut Rng, all_bits: bool, n_bits: usize) -> Vec<(String, Vec<u8>)> {
+    let mut out = vec![];
+    let nb = base.len() * 8;
+    let t = ref_tsig(base);
+    let mut bits: Vec<usize> = if all_bits { (0..nb).collect() } else { (0..n_bits).map(|_| rng.below(nb as u64) as usize).collect() };
+    if !all_bits {
+        // always: every header bit, and every bit of the TSIG RR's fixed fields
+        bits.extend(0..96);
+        if let Some(t) = &t {
+            let lo = t.start * 8;
+            bits.extend((lo..(t.end * 8).min(nb)).filter(|i| i % 3 == 0));
+        }
+    }
+    for i in bits {
+        let mut m = base.to_vec();
+        m[i / 8] ^= 0x80 >> (i % 8);
+        out.push((format!("bit{i}"), m));
+    }
+    // byte mutations
+    let n_bytes = if all_bits { base.len() } else { 40 };
+    for k in 0..n_bytes {
+        let i = if all_bits { k } else { rng.below(base.len() as u64) as usize };
+        for v in [0u8, 0xFF, rng.byte()] {
+            if base[i] != v {
+                let mut m = base.to_vec();
+                m[i] = v;
+                out.push((format!("byte{i}"), m));
+            }
+        }
+    }
+    // section-count edits
+    for c in 0..4 {
+        let i = 4 + 2 * c;
+        let cur = r16(base, i).unwrap() as u16;
+        for v in [0u16, 1, 2, cur.wrapping_add(1), cur.wrapping_sub(1), 0xFFFF, 0x8000] {
+            if v != cur {
+                let mut m = base.to_vec();
+                patch16(&mut m, i, v);
+                out.push((format!("count{c}"), m));
+            }
+        }
+    }
+    // move a record between sections / overflow of answers + authorities
+    for (an, ns) in [(0xFFFFu16, 1u16), (0x8000, 0x8000), (1, 0), (0, 2)] {
+        let mut m = base.to_vec();
+        patch16(&mut m, 6, an);
+        patch16(&mut m, 8, ns);
+        out.push(("counts-an-ns".into(), m));
+    }
+    // truncations and extensions
+    let cuts: Vec<usize> = if all_bits { (0..base.len()).collect() } else { (0..24).map(|_| rng.below(base.len() as u64) as usize).chain([11, 12, base.len() - 1]).collect() };
+    for c in cuts {
+        out.push((format!("cut{c}"), base[..c].to_vec()));
+    }
+    for extra in [vec![0u8], vec![0xFF; 3], rng.bytes(17)] {
+        let mut m = base.to_vec();
+        m.extend(extra);
+        out.push(("trailing".into(), m));
+    }
+    // raw edits of TSIG RR fields the typed API cannot express
+    if let Some(t) = &t {
+        // fixed part after the owner name: type(2) class(2) ttl(4) rdlen(2)
+        let (_, q, _) = ref_name(base, t.start, base.len()).unwrap();
+        for (off, v) in [(2usize, 1u16), (2, 254), (2, 0), (4, 1), (6, 1), (6, 0x0E10)] {
+            let mut m = base.to_vec();
+            patch16(&mut m, q + off, v);
+            out.push(("tsig-class-ttl".into(), m));
+        }
+        // the TSIG RR twice (second one a verbatim copy), ARCOUNT + 1
+        let mut m = base.to_vec();
+        m.extend_from_slice(&base[t.start..t.end]);
+        let ar = r16(base, 10).unwrap() as u16;
+        patch16(&mut m, 10, ar + 1);
+        out.push(("double-tsig".into(), m));
+        // TSIG RR with RDLENGTH 0
+        let mut m = base[..q + 8].to_vec();
+        m.extend([0, 0]);
+        out.push(("tsig-rdlen0".into(), m));
+        // upper-case the key name on the wire (same key, case-insensitive) — MAC must still hold
+        let mut m = base.to_vec();
+        for x in &mut m[t.start..q] {
+            if x.is_ascii_lowercase() {
+                *x = x.to_ascii_uppercase();
+            }
+        }
+        out.push(("keyname-case".into(), m));
+    }
+    out
+}
+
+pub fn run(o: &Opts, rec: &mut Recorder) {
+    rec.rule = "signed_bitmessage_to_buf produced a TBS / verify_message_byte or TSigVerifier::verify accepted / the server attached a MAC'ed TSIG to its reply".into();
+    std::fs::create_dir_all(&o.out).ok();
+    let cx = Ctx {
+        rt: tokio::runtime::Builder::new_current_thread().enable_all().build().unwrap(),
+        journal_path: o.out.join("c13-journal.sqlite"),
+    };
+    for l in &o.pre_lines {
+        exec(l, rec, &cx);
+    }
+    rec.corpus_cases = rec.cases.len();
+    if o.replay_only {
+        return;
+    }
+    let thorough = o.thorough();
+    let mut g = Gen { rec, cx: &cx, rng: Rng::new(o.seed) };
+    let (a, bq) = (sa(), sb());
+    let keysets: Vec<(&str, Vec<SignerSpec>)> = vec![
+        ("A", vec![a.clone()]),
+        ("AB", vec![a.clone(), bq.clone()]),
+        ("BA", vec![bq.clone(), a.clone()]),
+        ("B", vec![bq.clone()]),
+        ("none", vec![]),
+        ("A-wrongkey", vec![spec("tsig-key.", 256, 300, "kx")]),
+        ("A-otheralg", vec![spec("tsig-key.", 384, 300, "ka")]),
+    ];
+
+    // ---- (1) pristine signed requests × configurations × clock offsets --------------------
+    let mut n = 0u32;
+    let mut bases: Vec<(Vec<u8>, SignerSpec, Message)> = vec![];
+    for (signer, edns, txt, axfr) in [(&a, false, false, false), (&bq, true, true, false), (&a, false, false, true), (&bq, true, false, true)] {
+        n += 1;
+        let id = g.rng.next() as u16;
+        let mut m = if axfr { axfr_msg(id) } else { update_msg(id, n, edns, txt) };
+        if axfr && edns {
+            m.set_edns(Edns::new());
+        }
+        let buf = sign_plain(&m, signer, T0);
+        bases.push((buf, signer.clone(), m));
+    }
+    for _ in 0..o.n(3, 10) {
+        n += 1;
+        let m = rich_update(&mut g.rng, n);
+        let signer = if g.rng.chance(1, 2) { a.clone() } else { bq.clone() };
+        let t = if g.rng.chance(1, 4) { T0 + g.rng.range(0, 20) } else { T0 };
+        let buf = sign_plain(&m, &signer, t);
+        bases.push((buf, signer, m));
+    }
+    {
+        // AXFR asked with another spelling of the zone name and a non-zero flag octet 3
+        let mut m = axfr_msg(g.rng.next() as u16);
+        m.queries[0].name = Name::from_ascii("eXample.Com.").unwrap();
+        m.metadata.recursion_desired = true;
+        m.metadata.checking_disabled = true;
+        let buf = sign_plain(&m, &a, T0);
+        bases.push((buf, a.clone(), m));
+    }
+    let offsets = |f: u64| -> Vec<i64> {
+        let f = f as i64;
+        vec![0, 1, -1, f - 1, -(f - 1), f, -f, f + 1, -(f + 1), 1_000_000, -1_000_000]
+    };
+    for (bi, (buf, signer, _)) in bases.clone().into_iter().enumerate() {
+        for (ki, (_, keys)) in keysets.iter().enumerate() {
+            if bi >= 4 && ki != 1 {
+                continue;
+            }
+            for au in [true, false] {
+                for pol in ["signed", "all", "deny"] {
+                    let offs = if keys.iter().any(|k| k.keyid == signer.keyid) && au && pol == "signed" { offsets(signer.fudge as u64) } else { vec![0, 1_000_000] };
+                    for d in offs {
+                        let now = (T0 as i64 + d) as u64;
+                        g.run(cfg_line(au, pol, keys, now, &buf, false));
+                    }
+                }
+            }
+        }
+        // with a journal under the out dir
+        g.run(cfg_line(true, "signed", &[a.clone(), bq.clone()], T0, &buf, true));
+        g.run(cfg_line(true, "signed", &[a.clone(), bq.clone()], T0 + 100_000, &buf, true));
+        g.raw(&buf, &signer);
+    }
+    // unsigned requests
+    for m in [update_msg(7, 99, false, false), axfr_msg(8), update_msg(9, 98, true, true)] {
+        let buf = m.to_vec().unwrap();
+        for pol in ["signed", "all", "deny"] {
+            for au in [true, false] {
+                g.run(cfg_line(au, pol, &[a.clone(), bq.clone()], T0, &buf, false));
+            }
+        }
+        g.raw(&buf, &a);
+    }
+
+    // ---- (2) what a key holder can send: TSIG field edits, re-signed or not ----------------
+    let std_keys = vec![a.clone(), bq.clone()];
+    for (_, signer, m) in bases.clone() {
+        let key = key_bytes(&signer.keyid);
+        let alg = alg_of(signer.bits).unwrap();
+        let kn = signer.name.clone();
+        let id = m.metadata.id;
+        let f = signer.fudge;
+        type E = (Name, TsigAlgorithm, u64, u16, u16, Option<TsigError>, Vec<u8>);
+        let base: E = (kn.clone(), alg.clone(), T0, f, id, None, vec![]);
+        let mut edits: Vec<(&str, E, u64)> = vec![];
+        let mut e = base.clone();
+        e.0 = Name::from_ascii("other-key.").unwrap();
+        edits.push(("keyname-other", e, T0));
+        let mut e = base.clone();
+        e.0 = Name::from_ascii(kn.to_ascii().to_uppercase()).unwrap();
+        edits.push(("keyname-upper", e, T0));
+        for al in [TsigAlgorithm::HmacSha256, TsigAlgorithm::HmacSha384, TsigAlgorithm::HmacSha512, TsigAlgorithm::HmacSha1, TsigAlgorithm::HmacSha256_128, TsigAlgorithm::Unknown(Name::from_ascii("HMAC-SHA256").unwrap()), TsigAlgorithm::Unknown(Name::from_ascii("hmac-sha256.example").unwrap())] {
+            let mut e = base.clone();
+            e.1 = al;
+            edits.push(("alg", e, T0));
+        }
+        for (t, now) in [(0u64, 0u64), (0, 100), (100, 100), (100, 350), (f as u64 - 1, 10), (f as u64, 10), (f as u64 + 1, 10), ((1 << 48) - 1, (1 << 48) - 1), ((1 << 48) - 1, T0), (T0 + 5, T0), (T0 - 5, T0)] {
+            let mut e = base.clone();
+            e.2 = t;
+            edits.push(("time", e, now));
+        }
+        for (fu, now) in [(0u16, T0), (0, T0 + 1), (1, T0 + 1), (1, T0 - 1), (0xFFFF, T0 + 65534), (0xFFFF, T0 + 65535), (0xFFFF, T0 - 65535)] {
+            let mut e = base.clone();
+            e.3 = fu;
+            edits.push(("fudge", e, now));
+        }
+        for oid in [id.wrapping_add(1), 0, 0xFFFF] {
+            let mut e = base.clone();
+            e.4 = oid;
+            edits.push(("oid", e, T0));
+        }
+        for er in [16u16, 17, 18, 22, 1] {
+            let mut e = base.clone();
+            e.5 = Some(TsigError::from(er));
+            edits.push(("error", e, T0));
+        }
+        for ot in [vec![0u8; 6], vec![1, 2, 3]] {
+            let mut e = base.clone();
+            e.6 = ot;
+            edits.push(("other", e, T0));
+        }
+        for (tag, e, now) in edits {
+            g.rec.stat(&format!("gen.edit.{tag}"));
+            // (a) re-signed by the key holder with the algorithm named in the record when it is
+            // a supported one, else with the key's own
+            let mac_alg = if e.1.supported() { e.1.clone() } else { alg.clone() };
+            if let Some(buf) = sign_with(&m, &e.0, e.1.clone(), &key, &mac_alg, e.2, e.3, e.4, e.5, e.6.clone()) {
+                g.probe(&buf, now, &std_keys);
+            }
+            // (b) the same record with a MAC made with another key
+            if let Some(buf) = sign_with(&m, &e.0, e.1.clone(), &key_bytes("kx"), &mac_alg, e.2, e.3, e.4, e.5, e.6.clone()) {
+                g.probe(&buf, now, &std_keys);
+            }
+        }
+        // MAC length edits (truncation / extension), on the typed record
+        let good = sign_plain(&m, &signer, T0);
+        let gm = Message::from_vec(&good).unwrap();
+        let full = gm.signature().unwrap().data.mac.clone();
+        for len in [0usize, 1, 10, 16, full.len() / 2, full.len() - 1, full.len() + 1, full.len() + 16] {
+            let mut mac = full.clone();
+            mac.resize(len, 0xAA);
+            let mut mm = gm.clone();
+            let sig = mm.take_signature().unwrap();
+            let name = sig.name.clone();
+            mm.set_signature(Box::new(make_tsig_record(name, sig.data.clone().set_mac(mac))));
+            g.rec.stat("gen.edit.maclen");
+            g.probe(&mm.to_vec().unwrap(), T0, &std_keys);
+        }
+        // changed body, old signature (the typed way of "modified in transit")
+        let mut mm = gm.clone();
+        mm.add_authority(Record::from_rdata(Name::from_ascii("evil.example.com.").unwrap(), 1, RData::A(A::new(6, 6, 6, 6))));
+        g.probe(&mm.to_vec().unwrap(), T0, &std_keys);
+        // TSIG not last / in another section
+        let mut mm = gm.clone();
+        let sig = mm.take_signature().unwrap();
+        let as_rec = Record::from_rdata(sig.name.clone(), 0, RData::TSIG(sig.data.clone()));
+        let mut r2 = as_rec.clone();
+        r2.dns_class = DNSClass::ANY;
+        let mut m_ans = mm.clone();
+        m_ans.add_answer(r2.clone());
+        g.probe(&m_ans.to_vec().unwrap(), T0, &std_keys);
+        let mut m_add = mm.clone();
+        m_add.add_additional(r2.clone());
+        m_add.add_additional(Record::from_rdata(Name::from_ascii("x.example.com.").unwrap(), 1, RData::A(A::new(1, 1, 1, 1))));
+        g.probe(&m_add.to_vec().unwrap(), T0, &std_keys);
+    }
+
+    // ---- (3) byte-level mutations of the signed requests -----------------------------------
+    let nbits = o.n(400, 0);
+    for (i, (buf, signer, _)) in bases.clone().into_iter().enumerate() {
+        let all = thorough && i < 3;
+        let mut rng = g.rng.fork();
+        for (tag, mb) in mutations(&buf, &mut rng, all, if thorough { 1500 } else { nbits }) {
+            g.rec.stat(&format!("gen.mut.{}", tag.trim_end_matches(|c: char| c.is_ascii_digit())));
+            g.run(cfg_line(true, "signed", &std_keys, T0, &mb, false));
+            g.run(format!("tbs {} ~ 1 ?", hex(&mb)));
+            if tag.starts_with("bit") || tag.starts_with("count") {
+                let lim = mb.len().min(48);
+                g.run(format!("ssm {}", hex(&mb[..lim])));
+            }
+            if g.rng.chance(1, 4) || tag.starts_with("tsig") || tag.starts_with("count") {
+                g.run(format!("vmb {} {} ~ 1 ?", signer.tok(false), hex(&mb)));
+            }
+            if g.rng.chance(1, 16) {
+                let prev = g.rng.bytes(32);
+                let first = g.rng.chance(1, 2);
+                g.run(format!("tbs {} {} {} ?", hex(&mb), hex(&prev), b(first)));
+            }
+        }
+    }
+
+    // ---- (4) replies: server-side TBS, client-side TBS, TSigVerifier, mutated replies -------
+    for (i, (_, signer, m)) in bases.clone().into_iter().enumerate() {
+        let f = signer.fudge as i64;
+        for (now_off, au) in [(0i64, true), (f + 5, true), (0, false), (-f, true), (f - 1, true), (-(f - 1), true)] {
+            // sign as a client does, keep what it keeps
+            let mut req = m.clone();
+            let unsigned = req.to_vec().unwrap();
+            let s = signer.signer().unwrap();
+            let _ = req.finalize(&s, T0).unwrap();
+            let rb = req.to_vec().unwrap();
+            let reqmac = req.signature().unwrap().data.mac.clone();
+            let now = (T0 as i64 + now_off) as u64;
+            // the exchange, on a private server
+            let handler = build_zone(AxfrPolicy::AllowSigned, au, std_keys.iter().filter_map(|k| k.signer()).collect(), None, &cx.rt);
+            let mut catalog = Catalog::new();
+            catalog.upsert(LowerName::new(&origin()), vec![handler.clone() as Arc<dyn ZoneHandler>]);
+            let src: SocketAddr = "127.0.0.1:5300".parse().unwrap();
+            let request = Request::from_bytes(rb.clone(), src, Protocol::Tcp).unwrap();
+            NOW.store(now, Ordering::SeqCst);
+            let (stream, mut receiver) = BufDnsStreamHandle::new(src);
+            let handle = ResponseHandle::new(src, stream, Protocol::Tcp);
+            if catch(|| cx.rt.block_on(catalog.handle_request::<_, VTime>(&request, handle))).is_err() {
+                continue;
+            }
+            let Some(reply) = receiver.next().now_or_never().flatten().map(|m| m.into_parts().0) else { continue };
+            g.run(cfg_line(au, "signed", &std_keys, now, &rb, false));
+            let Some(rt) = ref_tsig(&reply) else {
+                // unsigned reply (refused before TSIG processing): the verifier must reject it
+                g.run(format!("vfy {} {} 0 {} {} ? ? {} ~", signer.tok(false), hex(&reqmac), T0, hex(&reply), hex(&unsigned)));
+                continue;
+            };
+            // server side: the unsigned encoding is the reply without its TSIG RR, ARCOUNT - 1
+            let mut stripped = reply[..rt.start].to_vec();
+            let ar = r16(&reply, 10).unwrap() as u16;
+            patch16(&mut stripped, 10, ar - 1);
+            g.run(format!("stbs {} {} {} {} {} {}", signer.tok(false), hex(&reqmac), hex(&stripped), rt.oid, rt.time, rt.error));
+            if !rt.mac.is_empty() {
+                // oracle: the MAC on the wire is the HMAC of exactly encode_response_tbs(stripped)
+                let stub = TSIG::new(alg_of(signer.bits).unwrap(), rt.time, signer.fudge, vec![], rt.oid, if rt.error == 0 { None } else { Some(TsigError::from(rt.error)) }, vec![]);
+                let tbs = s.encode_response_tbs(&reqmac, &stripped, &stub).unwrap();
+                let idx = g.rec.cases.len() - 1;
+                if s.sign(&tbs).ok().as_deref() != Some(&rt.mac[..]) {
+                    g.rec.fail(idx, "the reply MAC is not the HMAC of encode_response_tbs(request MAC, reply without TSIG RR, stub)", "");
+                }
+            }
+            g.run(format!("tbs {} {} 1 ?", hex(&reply), hex(&reqmac)));
+            g.run(format!("tbs {} {} 0 ?", hex(&reply), hex(&reqmac)));
+            let vline = |buf: &[u8], first: Option<&[u8]>| format!("vfy {} {} 0 {} {} ? ? {} {}", signer.tok(false), hex(&reqmac), T0, hex(buf), hex(&unsigned), first.map(hex).unwrap_or("~".into()));
+            g.run(vline(&reply, None));
+            // verifier of another request / other key / other request time
+            g.run(format!("vfy {} {} 0 {} {} ? ? {} ~", signer.tok(false), hex(&reqmac), T0 + 7, hex(&reply), hex(&unsigned)));
+            g.run(format!("vfy {} {} 0 {} {} ? ? {} ~", spec(&signer.name.to_ascii(), signer.bits, signer.fudge, "kx").tok(false), hex(&reqmac), T0, hex(&reply), hex(&unsigned)));
+            let mut other_req = m.clone();
+            other_req.metadata.id = other_req.metadata.id.wrapping_add(1);
+            g.run(format!("vfy {} {} 0 {} {} ? ? {} ~", signer.tok(false), hex(&reqmac), T0, hex(&reply), hex(&other_req.to_vec().unwrap())));
+            if rt.error == 0 && !rt.mac.is_empty() {
+                // the same reply presented again as a second message of the chain
+                g.run(vline(&reply, Some(&reply)));
+            }
+            // mutated replies
+            let all = thorough && i < 2 && now_off == 0 && au;
+            let mut rng = g.rng.fork();
+            for (tag, mb) in mutations(&reply, &mut rng, all, if thorough { 600 } else { o.n(150, 0) }) {
+                g.rec.stat(&format!("gen.rmut.{}", tag.trim_end_matches(|c: char| c.is_ascii_digit())));
+                g.run(vline(&mb, None));
+                if g.rng.chance(1, 3) {
+                    g.run(format!("tbs {} {} 1 ?", hex(&mb), hex(&reqmac)));
+                }
+            }
+        }
+    }
+
+    // ---- (4b) replies that meet the size limit ----------------------------------------------
+    for (extra, proto, payload) in [(0u32, "tcp", 0u16), (3, "udp", 0), (40, "udp", 0), (40, "udp", 1232), (200, "udp", 4096), (40, "tcp", 0), (900, "tcp", 0)] {
+        if extra > 300 && !thorough {
+            continue;
+        }
+        g.run(format!("bigxfr {extra} {proto} {payload}"));
+    }
+
+    // ---- (5) random / structured garbage for the raw entry points --------------------------
+    for _ in 0..o.n(150, 4000) {
+        let len = g.rng.range(0, 80) as usize;
+        let mut buf = g.rng.bytes(len);
+        if buf.len() >= 12 && g.rng.chance(3, 4) {
+            // plausible counts
+            for c in 0..4 {
+                let v = *g.rng.pick(&[0u16, 0, 1, 1, 2, 0xFFFF]);
+                patch16(&mut buf, 4 + 2 * c, v);
+            }
+        }
+        g.run(format!("tbs {} ~ 1 ?", hex(&buf)));
+        g.run(cfg_line(true, "signed", &std_keys, T0, &buf, false));
+    }
 }
